@@ -6,6 +6,8 @@ import (
 	"fmt"
 	"strconv"
 	"strings"
+	"sync"
+	"sync/atomic"
 
 	capnp "capnproto.org/go/capnp/v3"
 	. "verifh/hc"
@@ -503,6 +505,52 @@ func ConcCase(m *Msg, k, dcap, pcap, fuel int) string {
 		return fmt.Sprintf("VIOLATION final=%d want %d (T=%d granted=%d)", final, T-sum, T, sum)
 	case final > T-sum:
 		return fmt.Sprintf("VIOLATION final=%d > T-granted=%d", final, T-sum)
+	}
+	return "ok"
+}
+
+// ExhaustCase: g goroutines call Root() on one message whose budget admits exactly k root
+// objects; by theorem traversal_bound_conc at most k calls succeed under every interleaving
+// (and exactly k when at least k are attempted).  rounds fresh messages are tried; the
+// observation is the verdict.
+func ExhaustCase(m *Msg, g, k, rounds int) string {
+	probe := m.Build()
+	root, err := probe.Root()
+	if err != nil {
+		return "ok root-err"
+	}
+	ri := root.VerifInfo()
+	var cost uint64
+	if ri.Valid && ri.Kind == 0 {
+		cost = uint64(ri.DataSize) + 8*uint64(ri.PointerCount)
+	}
+	if cost == 0 {
+		return "ok zero-cost"
+	}
+	for round := 0; round < rounds; round++ {
+		mm := *m
+		mm.T = cost * uint64(k)
+		msg := mm.Build()
+		var succ int64
+		var wg sync.WaitGroup
+		start := make(chan struct{})
+		for i := 0; i < g; i++ {
+			wg.Add(1)
+			go func() {
+				defer wg.Done()
+				<-start
+				for j := 0; j < k; j++ {
+					if _, err := msg.Root(); err == nil {
+						atomic.AddInt64(&succ, 1)
+					}
+				}
+			}()
+		}
+		close(start)
+		wg.Wait()
+		if succ != int64(k) {
+			return fmt.Sprintf("VIOLATION round %d: %d dereferences succeeded, budget admits exactly %d", round, succ, k)
+		}
 	}
 	return "ok"
 }
